@@ -48,3 +48,14 @@ Example C01_nonvacuous :
                         v_hdrs := [b "host"; b "x-amz-copy-source"] |} = Some (b "UploadPartCopy", false).
 Proof. vm_compute. split; reflexivity. Qed.
 Print Assumptions C01_nonvacuous.
+
+From S3V Require Import model.Bindings model.PanicLedger gen.OpBindings.
+(* the "buffer the whole body first" flag of the route table is set exactly for the operations that read an XML or string payload:
+   an operation that takes its body as a stream (PutObject, UploadPart, WriteGetObjectResponse) is handed the body as it arrives, so
+   nothing stands between its route and its backend method but the deserializer *)
+Theorem C01_streaming_operations_not_buffered : streams_not_buffered gen_routes gen_code_inputs = true.
+Proof. vm_compute. reflexivity. Qed.
+Print Assumptions C01_streaming_operations_not_buffered.
+Theorem C01_payload_operations_buffered : full_body_ok gen_routes gen_code_inputs = true.
+Proof. vm_compute. reflexivity. Qed.
+Print Assumptions C01_payload_operations_buffered.
